@@ -582,17 +582,24 @@ int bignum_cmp(bn_t a, bn_t b)
 /* Signed compare bn */
 int bignum_cmp_signed(bn_t a, bn_t b)
 {
-	int i = BN_ARRAY_SIZE;
-	do {
-		i -= 1; /* Decrement first, to start with last array element */
-		if ((DTYPE_SIGNED)a.array[i] > (DTYPE_SIGNED)b.array[i]) {
+	int i = BN_ARRAY_SIZE - 1;
+
+	/* Only the most significant word carries the sign */
+	if ((DTYPE_SIGNED)a.array[i] > (DTYPE_SIGNED)b.array[i]) {
+		return LARGER;
+	}
+	else if ((DTYPE_SIGNED)a.array[i] < (DTYPE_SIGNED)b.array[i]) {
+		return SMALLER;
+	}
+	while (i != 0) {
+		i -= 1;
+		if (a.array[i] > b.array[i]) {
 			return LARGER;
 		}
-		else if ((DTYPE_SIGNED)a.array[i] < (DTYPE_SIGNED)b.array[i]) {
+		else if (a.array[i] < b.array[i]) {
 			return SMALLER;
 		}
 	}
-	while (i != 0);
 
 	return EQUAL;
 }
